@@ -1473,10 +1473,18 @@ class PlacementFeasibilityTracker:
         """App shape, including the traits required by app and allocation.
 
         Traits are not part of Application.shape(), yet two apps that differ
-        only in required traits are not interchangeable for placement.
+        only in required traits are not interchangeable for placement. The
+        same holds for apps of one affinity that declare equal limit values
+        for different levels: the shape holds the values only.
         """
         constraints, demand = app.shape()
-        return constraints + (app.traits,), demand
+        # Lookups of undeclared levels leave infinite entries behind.
+        limits = tuple(sorted(
+            (str(level), limit)
+            for level, limit in app.affinity.limits.items()
+            if limit != float('inf')
+        ))
+        return constraints + (app.traits, limits), demand
 
     def feasible(self, app):
         """Checks if it is feasible to satisfy demand."""
